@@ -293,10 +293,13 @@ class Run(object):
              "observed": v["observed"], "occurrences": len(lst)}
       k = match_known(known, key)
       if k is not None:
+        if key in known_hit:                 # the same finding met by another kind: one line per finding
+          known_hit[key] += len(lst)
+          continue
         path = write_artefact(art, known=True)
         known_hit[key] = len(lst)
-        lines.append("KNOWN-FINDING: property=%s %s [%s; %d case(s); replay=%s]"
-                     % (self.pid, k["what"], key, len(lst), path))
+        lines.append("KNOWN-FINDING: property=%s %s [%s; replay=%s]"
+                     % (self.pid, k["what"], key, path))
         continue
       if len(reported) >= 8:
         continue
